@@ -17,6 +17,9 @@ COMMON_ASSUMPTIONS = [
 ]
 
 
+PANIC_CLASSES = r"precondition not satisfied|overflow|underflow|division by zero|index out of|unreachable|panic"
+
+
 def registry():
     from . import registry as R
     return R.PROPS
@@ -78,7 +81,7 @@ def run_property(prop, tier, seed, rebaseline=False, only_unit=None):
     t0 = time.time()
     D.ensure_tools()
     units = []
-    for name in reg.get("units", []):
+    for name in list(reg.get("units", [])) + [x for x in reg.get("panic_units", []) if x not in reg.get("units", [])]:
         units.append((name, D.load_unit_text(name), {"static": True}))
     if reg.get("gen"):
         from . import l3
@@ -164,7 +167,10 @@ def run_property(prop, tier, seed, rebaseline=False, only_unit=None):
         tagmap = {}
         for f in u.fns:
             tagmap.setdefault(f["name"], set()).update([t for t in f["tags"] if not t.startswith("?")] or [prop])
-        mine = (lambda fn: True) if reg.get("ignore_tags") else (lambda fn: (prop in tagmap.get(fn.split("::")[-1], {prop})))
+        # `panic_units`: units whose functions this property depends on only for TOTALITY (C06: the FromMeta impls that convert option values at derive time):
+        # every function counts, whatever its tags, but only with precondition-class failures (expect/unwrap/index/unreachable/overflow)
+        panic_unit = u.name in reg.get("panic_units", [])
+        mine = (lambda fn: True) if (reg.get("ignore_tags") or panic_unit) else (lambda fn: (prop in tagmap.get(fn.split("::")[-1], {prop})))
         for o in u.obligations:
             if not mine(o["fn"]):
                 continue
@@ -200,6 +206,8 @@ def run_property(prop, tier, seed, rebaseline=False, only_unit=None):
         it = reg.get("include_text")
         clst = reg.get("classes_text")
         def counts(f):
+            if panic_unit:
+                return bool(re.search(PANIC_CLASSES, f["message"]))
             comb = f["message"] + " :: " + f["text"] + " :: " + f["src"]
             if clst and re.search(clst, comb):
                 return True
